@@ -40,7 +40,7 @@ META = {
 }
 
 # Work limits (sys.monitoring JUMP|BRANCH events inside solvor.cg / solvor.bp / solvor.utils.pricing), DESIGN 2.4.
-# solve_cg: max observed on /repo 0.47M (quick) / 1.9M (thorough) events -> fixed limit >= 200x that; never reached.
+# solve_cg: max observed on /repo 0.62M (quick) / 1.9M (thorough) events -> fixed limit >= 200x that; never reached.
 # solve_bp: the search after branching is the known-defective part (crawls through up to 10 000 nodes or does not
 # stop: 25 % of the branched calls need > 13M events, 15 % of all calls > 20M), so a fixed 100x limit would cost
 # ~100 s per hit.  The work of a *root-only* call (the only bp results outside the known class) is one column
